@@ -388,6 +388,10 @@ class GroupCoordinator:
         g = self.group(obj["consumer_group"])
         req = obj.get("topics")
         topics = []
+        if err and cls.API_VERSION >= 2:
+            # since v2 Kafka reports group-level errors in the top-level field only
+            self.c.ev("offset_fetch", group=g.gid, error=err)
+            return {"topics": [], "error_code": err}
         if req is None:
             bytopic = {}
             for (t, p), (off, md) in sorted(g.offsets.items()):
